@@ -320,14 +320,14 @@ func checkC16(p *Prog, r *Report) {
 				switch calleeName(c) {
 				case "fmt.Sprintf":
 					fs, okf := constString(c.Call.Args[0])
-					k := exprKey(c.Call.Args[1])
+					k := sk(c.Call.Args[1])
 					if okf && (fs == "%d" || fs == "%v") && k == "["+f.Params[0].Name()+"]" {
 						ok = true
 					} else {
 						why = fmt.Sprintf("fmt.Sprintf(%q, %s): need format %%d/%%v applied to the uint64 parameter itself", fs, k)
 					}
 				case "fmt.Sprint":
-					if exprKey(c.Call.Args[0]) == "["+f.Params[0].Name()+"]" {
+					if sk(c.Call.Args[0]) == "["+f.Params[0].Name()+"]" {
 						ok = true
 					}
 				case "strconv.FormatUint":
@@ -472,7 +472,7 @@ func checkC16(p *Prog, r *Report) {
 				if cv, isC := a.(*ssa.Convert); isC && cv.X == ssa.Value(f.Params[0]) {
 					ok = true
 				} else {
-					why = "sleeps for " + exprKey(c.Call.Args[0]) + ", expected the argument in nanoseconds"
+					why = "sleeps for " + sk(c.Call.Args[0]) + ", expected the argument in nanoseconds"
 				}
 			}
 		}
@@ -555,7 +555,7 @@ func evalBoolCFG(p *Prog, f *ssa.Function, cv bool) (panics, returns bool, undec
 			case *ssa.If:
 				v, ok := eval(x.Cond)
 				if !ok {
-					undecided = exprKey(x.Cond)
+					undecided = sk(x.Cond)
 					return
 				}
 				if v {
